@@ -33,7 +33,7 @@ use std::cell::RefCell;
 use std::panic::{AssertUnwindSafe, catch_unwind};
 use std::rc::Rc;
 
-struct PassThrough(TokenCaptureFlags);
+pub(crate) struct PassThrough(pub(crate) TokenCaptureFlags);
 
 impl TransformController for PassThrough {
     fn initial_capture_flags(&self) -> TokenCaptureFlags {
